@@ -126,7 +126,7 @@ func (x *runner) record(sc *Scenario, o *Outcome) {
 	x.res.Count(string(b), nontrivial(sc), classes(sc)...)
 	for _, p := range o.Problems {
 		x.res.Fail(p.Key, p.What, rec)
-		if strings.HasSuffix(p.Key, "/stuck") {
+		if strings.HasSuffix(p.Key, "/stuck") || p.Key == "C10/lock/output-lock-not-released" {
 			x.stuck++
 		}
 	}
@@ -621,7 +621,7 @@ func main() {
 			x.stallProbes()
 		}
 	} else {
-		nEnum, nRand, nFree, nTimer, nRace := 90, 1800, 250, 30, 12
+		nEnum, nRand, nFree, nTimer, nRace := 90, 1600, 250, 24, 12
 		if o.Thorough() {
 			nEnum, nRand, nFree, nTimer, nRace = 1200, 18000, 3000, 200, 100
 			grace = 5 * 1000 * 1000
